@@ -36,7 +36,7 @@ def gates(c, tier):
             if c.get(f"cell:{k}:{ic}", 0) == 0:
                 out.append(f"no {k} with id class {ic}")
     for k in ("search-with>=3-results-before-done", "duplicate-final-response", "request-type-delivered", "batched-delivery", "chunked-delivery",
-              "accepted-response", "rejected-response", "ids-checked", "response-with-paged-control", "long-lived-client", "many-outstanding-operations", "negative-id-aliasing-an-operation-in-progress", "entries-beyond-the-requested-size-limit"):
+              "accepted-response", "rejected-response", "ids-checked", "response-with-paged-control", "long-lived-client", "many-outstanding-operations", "negative-id-aliasing-an-operation-in-progress", "entries-beyond-the-requested-size-limit", "long-id-sequence"):
         if c.get(k, 0) == 0:
             out.append(f"never observed {k}")
     return out[:12]
@@ -148,7 +148,36 @@ def negative_alias(seed, n_ops, alias_of):
     return steps
 
 
+def long_id_sequence(n_req):
+    """One client issuing n_req requests (most answered at once, some left open): the ids returned are positive, strictly
+    increasing and are the ids in the emitted bytes - also past 2^15 and 2^16."""
+    from vf.ref import ber
+
+    c = sl.LDAPClient()
+    last = 0
+    res = rfc4511.encode
+    for k in range(n_req):
+        mid = c.extended_request("1.2.3") if k % 7 else c.search_request("dc=x")
+        if not isinstance(mid, int) or mid <= last:
+            return [("ids-not-increasing:long-lived", f"request #{k + 1} got id {mid!r} after {last}")]
+        data = c.data_to_send()
+        root = ber.parse(data)
+        wire = int.from_bytes(root.children[0].content, "big", signed=True)
+        if wire != mid:
+            return [("emitted-differs:long-lived:id", f"request #{k + 1}: returned id {mid}, id in the bytes {wire}")]
+        last = mid
+        if k % 5:
+            c.receive(res(("ExtendedResponse", mid, ((0, "", "", None), None, None), ())) if k % 7 else res(("SearchResultDone", mid, ((0, "", "", None),), ())))
+    return []
+
+
 def run_shard(ctx: Ctx, acc: Acc):
+    if ctx.shard == 3:
+        acc.case()
+        acc.count("long-id-sequence")
+        acc.nontrivial("long-ids")
+        for key, what in long_id_sequence(70_000):
+            acc.violation(key, what, {"long_ids": 70_000})
     for ci, (limit, extra) in enumerate([(1, 1), (1, 5), (2, 1), (5, 3), (10, 1), (100, 30), (1000, 2)]):
         if ci % ctx.nshards != ctx.shard:
             continue
@@ -314,6 +343,8 @@ def run_shard(ctx: Ctx, acc: Acc):
 def replay(w):
     if w.get("many"):
         return run_steps(many_outstanding(*w["many"]))[0]
+    if w.get("long_ids"):
+        return long_id_sequence(w["long_ids"])
     if w.get("beyond"):
         return run_steps(beyond_size_limit(*w["beyond"]))[0]
     if w.get("alias"):
